@@ -176,6 +176,20 @@ def _spell(line: str, x: BIP32KeyData, path):
     return xk, pp
 
 
+def _spell_path(line, path):
+    """One of the DerPath spellings of the same index list (list / text / bytes / single int)."""
+    h = hashlib.blake2b(line.encode(), digest_size=1).digest()[0]
+    if not all(0 <= i <= 0xFFFFFFFF for i in path) or len(path) > 255:
+        return path
+    if h % 4 == 1:
+        return der_path.str_from_der_path(path, hardening="'" if h & 4 else "h")
+    if h % 4 == 2:
+        return b"".join(i.to_bytes(4, "little") for i in path)
+    if h % 4 == 3 and len(path) == 1:
+        return path[0]
+    return path
+
+
 def impl(line: str) -> str:
     t = line.split(" ")
     op = t[0]
@@ -191,9 +205,18 @@ def impl(line: str) -> str:
         with mac(t[1]):
             return _x(lambda: bip32._derive(xof(t[2:8]), pof(t[8]), _forced(t[9])))
     if op == "bip32.fold":
+        x, p = xof(t[2:8]), pof(t[8])
         with mac(t[1]):
-            r = _x(lambda: bip32._derive(xof(t[2:8]), pof(t[8]), None))
-        return r if r.startswith("ok") else "err any"
+            r = _x(lambda: bip32._derive(x, p, None))
+        # where T1 (`deriveB_eq_fold`) says the BIP fold and `_derive` refuse alike, the refusal is compared by name
+        exact = (x.key[:1] == b"\x00" or all(i < H for i in p)) and x.depth + len(p) <= 255
+        return r if r.startswith("ok") or exact else "err any"
+    if op == "bip32.tweaks":
+        try:
+            tw = bip32.pub_key_derivation_tweaks(unhx(t[1]), unhx(t[2]), _spell_path(line, pof(t[3])))
+            return "ok " + (",".join(b.hex() for b in tw) if tw else "_")
+        except Exception as e:  # noqa: BLE001
+            return "err " + kind(e)
     if op == "bip32.neuter":
         return _x(lambda: bip32.xpub_from_xprv_(xof(t[1:7])))
     if op == "bip32.fp":
@@ -582,6 +605,134 @@ def _o_slip132(w):
     return ok, got[0][:12]
 
 
+BOUNDARY = [H - 1, H, H + 1, 2**32 - 1]
+
+
+def _boundary_calls(x, acct, i, acct_prv=None):
+    """Every public API of the C07 modules that takes indexes, with a PUBLIC parent, index `i` placed where the API
+    reads an index.  -> [(name, thunk, reference thunk or None)]; the reference is what an unhardened `i` must give."""
+    from btclib.bip32.key_origin import BIP32KeyOrigin  # noqa: F401
+    xb = x.b58encode()
+    txt = der_path.str_from_der_path([i])
+    le = i.to_bytes(4, "little")
+    d1 = lambda: _fields(bip32.derive_(x, [i]))                                  # noqa: E731
+    d3 = lambda: _fields(bip32.derive_(x, [0, i, 1]))                            # noqa: E731
+    tw1 = lambda: [_hmac.new(x.chain_code, x.key + i.to_bytes(4, "big"), "sha512").digest()[:32]]  # noqa: E731
+    acc = lambda b, a: (lambda: _fields(bip32.derive_(acct, [b, a])))            # noqa: E731
+    calls = [
+        ("derive_/list", lambda: _fields(bip32.derive_(x, [i])), d1),
+        ("derive_/int", lambda: _fields(bip32.derive_(x, i)), d1),
+        ("derive_/bytes", lambda: _fields(bip32.derive_(x, le)), d1),
+        ("derive_/text", lambda: _fields(bip32.derive_(x, txt)), d1),
+        ("derive/text", lambda: _fields(BIP32KeyData.b58decode(bip32.derive(xb, txt))), d1),
+        ("derive_/mid", lambda: _fields(bip32.derive_(x, [0, i, 1])), d3),
+        ("derive_/first", lambda: _fields(bip32.derive_(x, [i, 0])), None),
+        ("tweaks/list", lambda: bip32.pub_key_derivation_tweaks(x.key, x.chain_code, [i]), tw1),
+        ("tweaks/int", lambda: bip32.pub_key_derivation_tweaks(x.key, x.chain_code, i), tw1),
+        ("tweaks/bytes", lambda: bip32.pub_key_derivation_tweaks(x.key, x.chain_code, le), tw1),
+        ("tweaks/text", lambda: bip32.pub_key_derivation_tweaks(x.key, x.chain_code, txt), tw1),
+        ("tweaks/last", lambda: bip32.pub_key_derivation_tweaks(x.key, x.chain_code, [0, 1, i])[:0], lambda: []),
+        ("tweaks/first", lambda: bip32.pub_key_derivation_tweaks(x.key, x.chain_code, [i, 0])[:1], tw1),
+        ("tweaks/bip328", lambda: bip32.pub_key_derivation_tweaks(x.key, bip32.BIP328_CHAIN_CODE, [i])[:0], lambda: []),
+        ("account_/branch", lambda: _fields(bip32.derive_from_account_(acct, i, 0, False, 2**32)), acc(i, 0)),
+        ("account_/index", lambda: _fields(bip32.derive_from_account_(acct, 0, i, False, 2**32)), acc(0, i)),
+        ("account/index", lambda: _fields(BIP32KeyData.b58decode(bip32.derive_from_account(acct.b58encode(), 1, i, True, 2**32))), acc(1, i)),
+        ("range_/branch", lambda: [_fields(k) for k in bip32.derive_from_account_range_(acct, i, [0], False, 2**32)], lambda: [acc(i, 0)()]),
+        ("range_/index", lambda: [_fields(k) for k in bip32.derive_from_account_range_(acct, 0, [0, i], False, 2**32)],
+         lambda: [acc(0, 0)(), acc(0, i)()]),
+        ("range/index", lambda: [_fields(BIP32KeyData.b58decode(k)) for k in
+                                 bip32.derive_from_account_range(acct, 1, [i], True, 2**32)], lambda: [acc(1, i)()]),
+        ("slip132.p2pkh_xkey", lambda: _fields(BIP32KeyData.b58decode(slip132.p2pkh_xkey(x, [i], False)))[1:], lambda: d1()[1:]),
+        ("slip132.p2wpkh_xkey", lambda: _fields(BIP32KeyData.b58decode(slip132.p2wpkh_xkey(x, [0, i], False)))[1:], None),
+        ("slip132.p2wpkh_p2sh_xkey", lambda: _fields(BIP32KeyData.b58decode(slip132.p2wpkh_p2sh_xkey(x, txt, False)))[1:],
+         lambda: d1()[1:]),
+    ]
+    if acct_prv is not None:
+        # the account-level guards do not depend on the kind of key: a PRIVATE account refuses the same indexes
+        accp = lambda b, a: (lambda: _fields(bip32.derive_(acct_prv, [b, a])))    # noqa: E731
+        calls += [
+            ("account_/branch/prv", lambda: _fields(bip32.derive_from_account_(acct_prv, i, 0, False, 2**32)), accp(i, 0)),
+            ("account_/index/prv", lambda: _fields(bip32.derive_from_account_(acct_prv, 0, i, False, 2**32)), accp(0, i)),
+            ("range_/branch/prv", lambda: [_fields(k) for k in bip32.derive_from_account_range_(acct_prv, i, [0], False, 2**32)],
+             lambda: [accp(i, 0)()]),
+            ("range_/index/prv", lambda: [_fields(k) for k in bip32.derive_from_account_range_(acct_prv, 1, [i, 0], True, 2**32)],
+             lambda: [accp(1, i)(), accp(1, 0)()]),
+        ]
+        if acct_prv.depth == 3:
+            mainp = network.network_type_from_xkeyversion(acct_prv.version) == "main"
+            basep = [44 + H, (0 if mainp else 1) + H, acct_prv.index]
+            encp = lambda p_: (lambda: b58.p2pkh(bip32.derive_(acct_prv, p_[3:]), network.network_from_xkeyversion(acct_prv.version)))  # noqa: E731
+            calls += [
+                ("bip44/change/prv", lambda: bip44.address_from_der_path(acct_prv, basep + [i, 0]), encp(basep + [i, 0])),
+                ("bip44/index/prv", lambda: bip44.address_from_der_path(acct_prv, basep + [0, i]), encp(basep + [0, i])),
+            ]
+    if acct.depth == 3:
+        main = network.network_type_from_xkeyversion(acct.version) == "main"
+        base = [44 + H, (0 if main else 1) + H, acct.index]
+        enc = lambda p_: (lambda: b58.p2pkh(bip32.derive_(acct, p_[3:]), network.network_from_xkeyversion(acct.version)))  # noqa: E731
+        calls += [
+            ("bip44/change", lambda: bip44.address_from_der_path(acct, base + [i, 0]), enc(base + [i, 0])),
+            ("bip44/index", lambda: bip44.address_from_der_path(acct, base + [0, i]), enc(base + [0, i])),
+        ]
+    return calls
+
+
+def _o_boundary(w):
+    """Public parent, index i in {2^31-1, 2^31, 2^31+1, 2^32-1} through EVERY index-taking public API of the C07
+    modules (not only `derive`): a hardened index is refused with the library's error — never answered —, an
+    unhardened one is answered with what `derive_` / the HMAC equation gives."""
+    x, acct, i = _wkey(w), xof(w["acct"].split(" ")), w["i"]
+    acct_prv = xof(w["acct_prv"].split(" ")) if w.get("acct_prv") else None
+    bad = []
+    with backend(w["serving"]):
+        for name, call, ref in _boundary_calls(x, acct, i, acct_prv):
+            if w.get("api") and name != w["api"]:
+                continue
+            try:
+                got = call()
+            except BTClibValueError:
+                if i < H:
+                    bad.append(f"{name}: unhardened {i} refused")
+                continue
+            except Exception as e:  # noqa: BLE001
+                bad.append(f"{name}: foreign {type(e).__name__}: {e}")
+                continue
+            if i >= H:
+                bad.append(f"{name}: hardened index {i} ANSWERED")
+            elif ref is not None and got != ref():
+                bad.append(f"{name}: answer differs from the reference")
+    return not bad, "; ".join(bad)[:400] or f"i={i}"
+
+
+def _o_bip85_leading_zero(w):
+    """A derived child whose 32-byte private key begins with a zero byte (searched for: about 1 path in 256):
+    bip85 entropy is HMAC-SHA512("bip-entropy-from-k", the 32 bytes) — the leading zero is key material, not padding."""
+    x, p = _wkey(w), w["p"]
+    with backend(w["serving"]):
+        child = bip32.derive_(x, p)
+        e = bip85.entropy_from_der_path(x, p)
+    k = child.key[1:]
+    if len(k) != 32 or k[0] != 0:
+        return False, "witness is not a leading-zero child (generator defect)"
+    want = _hmac.new(b"bip-entropy-from-k", k, "sha512").digest()
+    return e == want, f"key {k.hex()[:8]}.. entropy {e.hex()[:16]} want {want.hex()[:16]}"
+
+
+def find_leading_zero_paths(rng, roots, want, tries=4000):
+    """Search hardened BIP85 paths whose child private key starts with 0x00 (both one and two zero bytes count)."""
+    out = []
+    for _ in range(tries):
+        if len(out) >= want:
+            break
+        x = rng.choice(roots)
+        p = [bip85._PURPOSE + H, rng.randrange(H, 2**32), rng.randrange(H, 2**32)]
+        with backend(True):
+            k = bip32.derive_(x, p).key
+        if k[1] == 0:
+            out.append((x, p))
+    return out
+
+
 def _o_tweaks(w):
     """pub_key_derivation_tweaks: parent point + (sum of tweaks)·G is the derived public key; each tweak is the
     step's own HMAC left half; a hardened index is refused."""
@@ -608,7 +759,7 @@ def _o_tweaks(w):
 
 
 ORACLES = {
-    "tweaks.sum": _o_tweaks,
+    "tweaks.sum": _o_tweaks, "refuse.hardened-boundary": _o_boundary, "bip85.leading-zero": _o_bip85_leading_zero,
     "law.split": _o_split, "law.neuter": _o_neuter, "law.crack": _o_crack,
     "refuse.hardened-pub": _o_hardened_pub, "refuse.depth": _o_depth, "refuse.invalid-child": _o_invalid_child,
     "vectors.bip32": _o_vectors, "path.roundtrip": _o_path_roundtrip, "version.pairing": _o_version_pairing,
@@ -898,7 +1049,61 @@ def run(ctx):
             p = rand_path(rng, 3, hardened_ok=x.key[:1] == b"\x00")
             ctx.check("slip132.version", {"x": xtok(x), "p": p, "serving": rng.random() < 0.5})
 
-    for fn in (s01_version_pairing, s02_official_vectors, s03_master_key, s04_derive_public, s05_invalid_child, s06_neuter_fingerprint, s07_crack, s08_account_level, s09_the_laws, s10_path_spellings, s11_thin_layers):
+    def s12_hardened_boundary():  # the 2^31 boundary through every index-taking public API, public parent
+        roots = [k for k in prv if k.depth == 0]
+        lines, acc_lines = [], []
+        for _ in range(ctx.n(3, 12)):
+            root = rng.choice(roots)
+            main = network.network_type_from_xkeyversion(root.version) == "main"
+            acct_prv = bip32.derive_(root, [44 + H, (0 if main else 1) + H, rng.randrange(5) + H])
+            acct = bip32.xpub_from_xprv_(acct_prv)
+            x = rng.choice([k for k in pub if k.depth < 200])
+            for ak in (acct, acct_prv):
+                for b_, a_ in [(0, i_) for i_ in BOUNDARY] + [(i_, 0) for i_ in BOUNDARY]:
+                    acc_lines.append(f"bip32.account {xtok(ak)} {b_} {a_} False {2**32}")
+                    acc_lines.append(f"bip32.range {xtok(ak)} {b_} {ptok([0, a_])} False {2**32}")
+            for i in BOUNDARY + [0, 1, rng.randrange(H), rng.randrange(H, 2**32)]:
+                for serving in (False, True):
+                    ctx.check("refuse.hardened-boundary",
+                              {"x": xtok(x), "acct": xtok(acct), "acct_prv": xtok(acct_prv), "i": i, "serving": serving},
+                              nontrivial=i < H)
+                for path in ([i], [0, i], [i, 1], [0, 1, i]):
+                    lines.append(f"bip32.tweaks {hx(x.key)} {hx(x.chain_code)} {ptok(path)}")
+        for _ in range(ctx.n(80, 1500)):
+            x = rng.choice(pub)
+            key, cc = x.key, x.chain_code
+            r = rng.random()
+            if r < 0.05:
+                key = bytes([rng.choice([0, 1, 4, 5])]) + key[1:]
+            elif r < 0.1:
+                key = bytes([rng.choice([2, 3])]) + common.rand_bytes(rng, 32)
+            elif r < 0.13:
+                key = key[:-1]
+            elif r < 0.16:
+                cc = cc + b"\x00"
+            elif r < 0.2:
+                key = rng.choice(prv).key
+            p = rand_path(rng, 6, hardened_ok=rng.random() < 0.2)
+            if rng.random() < 0.03:
+                p = p + [2**32]
+            lines.append(f"bip32.tweaks {hx(key)} {hx(cc)} {ptok(p)}")
+        _both(ctx, "bip32.tweaks", lines)
+        _both(ctx, "bip32.account-boundary", acc_lines)
+
+    def s13_bip85_leading_zero():  # bip85 on children whose private key begins with a zero byte
+        roots = [k for k in prv if k.depth < 200]
+        found = find_leading_zero_paths(rng, roots, ctx.n(3, 24), tries=ctx.n(6000, 40000))
+        if not found:
+            ctx.note("bip85.leading-zero: no leading-zero child found in this run's search")
+        lines = []
+        for x, p in found:
+            for serving in (False, True):
+                ctx.check("bip85.leading-zero", {"x": xtok(x), "p": p, "serving": serving})
+            lines.append(f"bip85.entropy {xtok(x)} {ptok(p)}")
+        _both(ctx, "bip85.leading-zero", lines)
+
+    for fn in (s01_version_pairing, s02_official_vectors, s03_master_key, s04_derive_public, s05_invalid_child, s06_neuter_fingerprint, s07_crack, s08_account_level, s09_the_laws, s10_path_spellings, s11_thin_layers,
+               s12_hardened_boundary, s13_bip85_leading_zero):
         _guard(ctx, fn)
 
 
